@@ -19,7 +19,10 @@ OldC == Triples(Traces[tid].oldc)
 NewC == Triples(Traces[tid].newc)
 FrameOK == FrameHolds(Old, New, Ed)
 CommentsOK == CommentsHold(OldC, NewC, Ed)
+OldL == [i \in 1..Len(Traces[tid].oldl) |-> <<Traces[tid].oldl[i][1], Traces[tid].oldl[i][2]>>]
+NewL == [i \in 1..Len(Traces[tid].newl) |-> Traces[tid].newl[i]]
+LinesOK == LinesHold(OldL, NewL)
 PlaceOK == PlacementHolds(Old, New, Ed)
-Emit == IF KnownEdit /\ FrameOK /\ PlaceOK /\ CommentsOK THEN PrintT(<<"ACC", ToJson(tid)>>)
-        ELSE PrintT(<<"REJ", ToJson([tid |-> tid, known |-> KnownEdit, frame |-> FrameOK, placement |-> PlaceOK, comments |-> CommentsOK])>>)
+Emit == IF KnownEdit /\ FrameOK /\ PlaceOK /\ CommentsOK /\ LinesOK THEN PrintT(<<"ACC", ToJson(tid)>>)
+        ELSE PrintT(<<"REJ", ToJson([tid |-> tid, known |-> KnownEdit, frame |-> FrameOK, placement |-> PlaceOK, comments |-> CommentsOK, lines |-> LinesOK])>>)
 =============================================================================
